@@ -89,6 +89,7 @@ type ReqSpec struct {
 	EOFData   bool        `json:"eof_data,omitempty"`
 	Weight    int         `json:"weight,omitempty"`
 	CWeight   int         `json:"client_weight,omitempty"` // scheduler weight of the client task (default: Weight)
+	CTParam   bool        `json:"ct_param,omitempty"` // plain HTTP: the Content-Type carries a parameter ("; charset=utf-8"). Whether such a request is served or refused is not judged (content negotiation is C03/C04's); it is there for what looking its codec up does to shared state
 	WSClose   string      `json:"ws_close,omitempty"` // normal | none | away
 	WSDuplex  bool        `json:"ws_duplex,omitempty"` // WebSocket, two-goroutine handler: the client sends its close frame only after the handler has made all its sends (there is no half-close)
 	Backend   string      `json:"backend,omitempty"`  // proxied through this backend ("" = local)
@@ -562,6 +563,9 @@ func (r *reqState) encode() {
 		case "away":
 			w = append(w, wire.WSClientClose(ws.StatusGoingAway, "bye", [4]byte{4, 3, 2, 1})...)
 		}
+	}
+	if sp.CTParam && sp.Proto == "http" && h.Get("Content-Type") != "" {
+		h.Set("Content-Type", h.Get("Content-Type")+"; charset=utf-8")
 	}
 	if sp.Accept != "" && sp.Proto == "http" {
 		h.Set("Accept", map[string]string{"json": "application/json", "proto": "application/protobuf", "other": "text/html"}[sp.Accept])
